@@ -11,9 +11,6 @@ import (
 	"github.com/nspcc-dev/neo-go/pkg/util"
 )
 
-// TokenTransferBatchSize is the maximum number of entries for TokenTransferLog.
-const TokenTransferBatchSize = 128
-
 // TokenTransferLog is a serialized log of token transfers.
 type TokenTransferLog struct {
 	Raw []byte
